@@ -16,6 +16,7 @@ macro_rules! scen {
 
 pub mod c01;
 pub mod c04;
+pub mod c05;
 pub mod c06;
 pub mod c07;
 pub mod c08;
@@ -26,6 +27,7 @@ pub fn all() -> Vec<Scenario> {
     let mut v = vec![];
     c01::register(&mut v);
     c04::register(&mut v);
+    c05::register(&mut v);
     c06::register(&mut v);
     c07::register(&mut v);
     c08::register(&mut v);
